@@ -1,5 +1,6 @@
 import enum
 import os
+import re
 from dataclasses import dataclass, field
 from keyword import iskeyword
 from pathlib import Path
@@ -294,5 +295,5 @@ def get_header_value(value: str) -> str:
 
 def assert_class_is_defined_in_file(file_path: Path, class_name: str):
     file_content = file_path.read_text()
-    if f"class {class_name}" not in file_content:
+    if not re.search(rf"^class {re.escape(class_name)}\b", file_content, re.MULTILINE):
         raise InvalidConfiguration(f"Cannot import {class_name} from {file_path}")
